@@ -7,12 +7,15 @@ import chi
 
 
 class ToyModel(chi.MechanisticModel):
-    """y_o(t) = b_o + sum_k c_ok * psi_k^2 * exp(-r_ok * t)   (positive for every psi)"""
+    """y_o(t) = b_o + sum_k c_ok * psi_k^2 * exp(-r_ok * t)   (positive for every psi unless an offset is given)"""
 
-    def __init__(self, n_outputs=1, n_parameters=2, seed=0):
+    def __init__(self, n_outputs=1, n_parameters=2, seed=0, offset=None):
         super().__init__()
         rng = np.random.default_rng([seed, 7])
         self._b = rng.uniform(0.5, 1.5, n_outputs)
+        if offset is not None:
+            # outputs that take negative values (same random coefficients as without the offset)
+            self._b = self._b - np.asarray(offset, float)
         self._c = rng.uniform(0.2, 1.0, (n_outputs, n_parameters))
         self._r = rng.uniform(0.05, 0.6, (n_outputs, n_parameters))
         self._all_outputs = ['out%d' % o for o in range(n_outputs)]
